@@ -27,6 +27,7 @@ pub fn exec(tok: &[&str]) -> String {
         "felt_div" => vh::felt_div(tok[1].parse().unwrap(), tok[2].parse().unwrap()).to_string(),
         "felt_inv" => vh::felt_inverse_or_zero(tok[1].parse().unwrap()).to_string(),
         "felt_batch_inv" => ints(&vh::felt_batch_inverse_or_zero(&parse_ints::<u32>(tok[1]))),
+        "felt_hadamard_div" => ints(&vh::felt_hadamard_div(&parse_ints::<u32>(tok[1]), &parse_ints::<u32>(tok[2]))),
         // whole-domain sweeps: one line stands for q (or 65536) evaluations, output is a digest-free full list
         "felt_new_all" => {
             // all 65536 conversions, in order -32768..32767
